@@ -65,7 +65,12 @@ def x_cell_lookup(x: int, y: int, z: int) -> bool:
     env.cells = _ListCells(table)
     inside = 0 <= x < max(w, 1) and 0 <= y < max(h, 1) and 0 <= z < max(d, 1)
     try:
-        row = env.get_cell(x, y, z)
+        if hx.P.get('alias'):
+            import warnings
+            warnings.simplefilter("ignore")
+            row = env.getCell(x, y, z)          # deprecated alias of get_cell
+        else:
+            row = env.get_cell(x, y, z)
         raised = False
     except IndexError:
         raised = True
@@ -160,6 +165,6 @@ def obligations(tier):
         X("rows_follow_components", rows_follow_components, parts=[{"shape": sh} for sh in ([3, 2, 0], [2, 0, 0], [2, 2, 1])],
           labels=("looked_up_twice",), timeout=600, encoded=enc[1:] + (Env.DiscreteWorld.add_cell_component, Env.DiscreteWorld.remove_cell_component)),
         X("id_alias", id_alias, labels=("called",), timeout=300, encoded=(Env.discreteGridPosToID,)),
-        X("x_cell_lookup", x_cell_lookup, parts=[{"shape": s} for s in shapes], labels=("inside", "outside"), timeout=300,
+        X("x_cell_lookup", x_cell_lookup, parts=[{"shape": s} for s in shapes] + [{"shape": [2, 2, 0], "alias": True}], labels=("inside", "outside"), timeout=300,
           group=4, encoded=enc[:2], bounds={"extents": "0..%d" % M, "coordinates": "all ints"}),
     ]
